@@ -37,6 +37,6 @@ package flag
 //@ func NewFlagFiles$1 :: path -> cfg, ierr, rerr
 //@ props C19
 //@ ensures [no_report] rerr == nil
-//@ ensures [by_ext] deref(extensions)[extOf(path)] != nil ==> cfg == dyn0(deref(extensions)[extOf(path)], *ucfg.Config, path, deref(opts)) && ierr == dyn1(deref(extensions)[extOf(path)], error, path, deref(opts))
-//@ ensures [fallback] deref(extensions)[extOf(path)] == nil && deref(extensions)[""] != nil ==> cfg == dyn0(deref(extensions)[""], *ucfg.Config, path, deref(opts)) && ierr == dyn1(deref(extensions)[""], error, path, deref(opts))
-//@ ensures [none] deref(extensions)[extOf(path)] == nil && deref(extensions)[""] == nil ==> cfg == nil && ierr != nil
+//@ ensures [by_ext] old(deref(extensions)[extOf(path)]) != nil ==> cfg == dyn0(old(deref(extensions)[extOf(path)]), *ucfg.Config, path, old(deref(opts))) && ierr == dyn1(old(deref(extensions)[extOf(path)]), error, path, old(deref(opts)))
+//@ ensures [fallback] old(deref(extensions)[extOf(path)]) == nil && old(deref(extensions)[""]) != nil ==> cfg == dyn0(old(deref(extensions)[""]), *ucfg.Config, path, old(deref(opts))) && ierr == dyn1(old(deref(extensions)[""]), error, path, old(deref(opts)))
+//@ ensures [none] old(deref(extensions)[extOf(path)]) == nil && old(deref(extensions)[""]) == nil ==> cfg == nil && ierr != nil
